@@ -250,7 +250,14 @@ func (this *Hnsw) handOverEntrypoint() {
 			// so that a non-empty index never loses its entrypoint.
 			closestNeighbor = this.highestLevelVertex()
 		}
-		atomic.CompareAndSwapPointer(&this.entrypoint, currEntrypoint, unsafe.Pointer(closestNeighbor))
+		if atomic.CompareAndSwapPointer(&this.entrypoint, currEntrypoint, unsafe.Pointer(closestNeighbor)) && closestNeighbor == nil {
+			// An insert that still saw the removed entry point did not claim
+			// the entry point for itself and may have stored its vertex after
+			// the fallback above looked.
+			if vertex := this.highestLevelVertex(); vertex != nil {
+				atomic.CompareAndSwapPointer(&this.entrypoint, nil, unsafe.Pointer(vertex))
+			}
+		}
 	}
 }
 
